@@ -135,6 +135,12 @@ ANTICIPATED = [
     ('2^2^2^2^2', 'CalcOverflowError'), ('(1+kronecker(2,2))^2000', 'CalcOverflowError'),
     # a sibling box that is blank, or only whitespace
     ('@siblingblank:', 'MissingInput'), ('@siblingblank: ', 'MissingInput'), ('@siblingblank:\t', 'MissingInput'),
+    # a blank box of a SumGrader is a missing input too
+    ('@sumblank:', 'MissingInput'), ('@sumblank: ', 'MissingInput'), ('@sumblank:\t', 'MissingInput'),
+    # odd delimiters: whatever the constructor accepts must still end in a result or a library
+    # error, also on the expect-inference path ('ANY' = no particular class)
+    ('@delim:', 'ANY'), ('@delim: ', 'ANY'), ('@delim:ab', 'ANY'), ('@delim:\n', 'ANY'),
+    ('@intervaldelim:', 'ANY'), ('@intervaldelim:;', 'ANY'),
     ('@instructor:x*c', 'UndefinedVariable'), ('@instructor:c', 'UndefinedVariable'),
     ('@instructor:x * c', 'UndefinedVariable'), ('@sibling:sibling_2+1', 'UndefinedVariable'),
     ('@sibling:sibling_2 + 1', 'UndefinedVariable'),
@@ -347,7 +353,8 @@ class TenantWorld(object):
             if r < 0.5:
                 return {'__credit__': {'cls': 'LinearCredit', 'cfg': {
                     'decrease_credit_after': rng.randint(1, 6), 'decrease_credit_steps': rng.randint(1, 6),
-                    'minimum_credit': rng.choice([0, 0.1, 0.2, 0.5, 1])}}}
+                    # (also minima that four decimals cannot represent)
+                    'minimum_credit': rng.choice([0, 0.1, 0.2, 0.5, 1, 1.0 / 3, 0.00004, 0.123456, 0.99996])}}}
             if r < 0.85:
                 return {'__credit__': {'cls': 'GeometricCredit', 'cfg': {
                     'factor': rng.choice([0, 0.01, 0.1, 0.1, 0.3, 0.5, 0.75, 0.9, 1])}}}
@@ -1083,6 +1090,25 @@ class Run(object):
             text = text.split(':', 1)[1]
             g = m.ListGrader(answers=['2*sibling_2', 'x'], subgraders=m.FormulaGrader(variables=['x']), ordered=True)
             inp = ['2*x', text]
+        elif text.startswith('@sumblank:'):
+            text = text.split(':', 1)[1]
+            g = m.SumGrader(answers={'lower': '1', 'upper': '5', 'summand': 'n', 'summation_variable': 'n'},
+                            input_positions={'lower': 1, 'upper': 2, 'summand': 3})
+            inp = ['1', text, 'n'] if ev['via'] != 'matrix' else [text, '5', 'n']
+        elif text.startswith('@delim:') or text.startswith('@intervaldelim:'):
+            delim = text.split(':', 1)[1]
+            try:
+                if text.startswith('@delim:'):
+                    g = m.SingleListGrader(subgrader=m.StringGrader(), delimiter=delim)
+                    inp, expect = 'a,b', ('a,b' if ev['via'] != 'matrix' else None)
+                else:
+                    g = m.IntervalGrader(delimiter=delim)
+                    inp, expect = '[1,2)', ('[1,2)' if ev['via'] != 'matrix' else None)
+            except Exception:       # refused at construction (voluptuous or ConfigError): not a call
+                self.sig.append(['anticipated', ev['via'], 'refused'])
+                self.log.append([i, 'anticipated', 'refused'])
+                return
+            text = 'delimiter %r' % delim
         elif text.startswith('@sibling:'):
             text = text.split(':', 1)[1]
             g = m.ListGrader(answers=['sibling_2+1', 'x'], subgraders=m.FormulaGrader(variables=['x']), ordered=True)
@@ -1109,7 +1135,13 @@ class Run(object):
         o = outcome(g, expect, inp)
         self.bump(self.probes, 'anticipated problem submitted')
         if 'family' in self.judges and not g.config.get('debug'):
-            if not (o['k'] == 'exc' and o['cls'] == want):
+            if want == 'ANY':
+                if o['k'] == 'exc' and o['fam'] == 'other':
+                    self.violate('I-family', i, type(g).__name__,
+                                 'a non-library exception escaped with debug off (%s, expect=%r, input=%r): %s'
+                                 % (text, expect, inp, short(o)),
+                                 sig='I-family|anticipated|ANY')
+            elif not (o['k'] == 'exc' and o['cls'] == want):
                 self.violate('I-family', i, type(g).__name__,
                              'anticipated problem %r must raise %s, got %s' % (text, want, short(o)),
                              sig='I-family|anticipated|%s' % want)
